@@ -876,3 +876,53 @@ def known_e8_failed_large_write_indexed(f):
 KNOWN_PREDICATES = {
     'e8_failed_large_write_indexed': known_e8_failed_large_write_indexed,
 }
+
+
+def oracle_c06(res, i):
+    cmd = res['script'][i].split()
+    out = res['impl'][i]
+    if cmd[0] == 'killcheck':
+        if not out.startswith('sweep ok'):
+            return f'MISMATCH after SIGKILL: {out}'
+        m = re.search(r'e8=(\d+)', out)
+        if m and int(m.group(1)) > 0:
+            return ('MISMATCH E8: the process was killed between the two writes of a record; the torn tail record was accepted '
+                    'at start-up and a write acknowledged after that recovery was lost at the next index-less start')
+        return 'OK'
+    if cmd[0] == 'alive' and out != 'alive':
+        return 'MISMATCH worker dead after recovery'
+    if cmd[0] == 'crashsweep':
+        if not out.startswith('sweep ok'):
+            return f'MISMATCH crash recovery: {out}'
+        m = re.search(r'e8=(\d+)', out)
+        if m and int(m.group(1)) > 0:
+            return (f'MISMATCH E8: in {m.group(1)} crash states a tail record torn inside its meta/data was accepted at start-up '
+                    f'and a write acknowledged after that recovery was lost at the next index-less start')
+    if cmd[0] in ('restart', 'open') and out != 'ok':
+        return f'MISMATCH init failed: {out}'
+    return None
+
+
+def known_e8_two_crash(f):
+    return f.scen['script'][f.line_no].startswith(('crashsweep', 'killcheck')) and 'MISMATCH E8:' in f.detail
+
+
+KNOWN_PREDICATES['e8_two_crash'] = known_e8_two_crash
+
+PROPS['C06'] = dict(
+    gen=lambda rng, tier: gen.crash_scenario(rng, size=tier),
+    p_cmds={'crashsweep', 'killcheck', 'restart', 'open', 'r', 'c', 'ram'},
+    oracle_cmds={'states'}, py_oracle=oracle_c06, kill_runs={'quick': 48, 'thorough': 600},
+    count={'quick': 60, 'thorough': 600}, timeout=2400,
+    nontrivial=lambda lines: any(l.startswith('crashsweep') for l in lines) and sum(1 for l in lines if l.startswith('w ')) >= 2,
+    features=lambda lines: kv_features(lines) | {t for l in lines[:1] for t in l.split() if t.startswith(('dirty=', 'validate=', 'ignore='))},
+    rule=("histories under dirty-byte limits {0,100,4096,32 MiB}, data validation on/off, corrupted blobs quarantined or "
+          "ignored; at random quiescent points every blob is cut at every length between its synced size and its size "
+          "(every byte when <= 260 un-synced bytes, record boundaries +-1 and samples otherwise), combined with its index kept "
+          "/ removed / cut at a random length / written-flag cleared; every crash state is opened in a copy: init must "
+          "succeed, the cut blob serves exactly the records complete in the surviving prefix (or is quarantined with its bytes "
+          "intact), every other blob is served in full, reads never return foreign bytes, and a write made after recovery must "
+          "survive a clean restart without index files"),
+    assumptions=['which prefixes can persist after power loss is the contract of the file system (every prefix beyond the last sync is explored)',
+                 'known finding E8 (torn tail record accepted) is reported as KNOWN-FINDING'],
+)
